@@ -122,14 +122,48 @@ def dup_case(rng):
 
 
 def to_flow(rng, case):
-    """the same case through Flow::process_packet with real IP/TCP/RawPDU packets"""
+    """the same case through Flow::process_packet with real IP/TCP/RawPDU packets; in a third of the cases the flow is
+    opened by a SYN (Flow::update_state sets the expected sequence number; sometimes the SYN carries data, TCP Fast Open),
+    segments carry PSH / FIN / RST / SYN flags (data is handled in every state; the payload of a SYN segment starts one past
+    its sequence number), the SYN is retransmitted later"""
     out = []
+    stateful = rng.random() < 0.35
+    isn = 0
     for op in case:
         w = op.split(" ")
         if w[0] == "init":
-            out.append("f" + op)
+            isn = int(w[1])
+            if not stateful:
+                out.append("f" + op)
+                continue
+            # the flow is created with some other sequence number; the SYN brings the real one
+            r = rng.random()
+            if r < 0.12:
+                # FIN / RST before any SYN: the flow leaves UNKNOWN, so a later SYN does not move the expected sequence number
+                out.append(f"finit {isn} {w[2]}")
+                out.append(f"fpkt {rng.choice([FIN | ACK, RST])} {rng.randrange(2**32)} ~")
+                out.append(f"fpkt {SYN} {rng.randrange(2**32)} ~")
+            else:
+                out.append(f"finit {rng.choice([isn, 0, (isn + 7) % 2**32, rng.randrange(2**32)])} {w[2]}")
+                if r < 0.3:
+                    out.append(f"fbare {rng.randrange(2**32)}")        # an ACK in UNKNOWN changes nothing
+                if r < 0.5 and w[2] != "-":
+                    # TCP Fast Open: the SYN that opens the flow carries the first bytes of the stream
+                    s = bytes.fromhex(w[2])
+                    out.append(f"fpkt {SYN} {(isn - 1) % 2**32} {hexs(s[:rng.randint(0, len(s))])} @0")
+                else:
+                    out.append(f"fpkt {rng.choice([SYN, SYN | ACK])} {(isn - 1) % 2**32} ~")
         elif w[0] == "seg":
-            out.append(("fsegp " if rng.random() < 0.3 else "fseg ") + " ".join(w[1:]))
+            if stateful and rng.random() < 0.5:
+                seq, hx, off = int(w[1]), w[2], w[3]
+                fl = rng.choice([ACK | PSH, ACK | FIN, ACK | FIN | PSH, RST, RST | ACK, ACK | PSH | 32, SYN | ACK, SYN])
+                if fl & SYN:
+                    seq = (seq - 1) % 2**32                              # the SYN occupies one sequence number
+                out.append(f"{'fpktp' if rng.random() < 0.3 else 'fpkt'} {fl} {seq} {hx} {off}")
+            else:
+                out.append(("fsegp " if rng.random() < 0.3 else "fseg ") + " ".join(w[1:]))
+            if stateful and rng.random() < 0.05:
+                out.append(f"fpkt {rng.choice([SYN, FIN | ACK, RST])} {(isn - 1) % 2**32} ~")
             if rng.random() < 0.05:
                 out.append(f"fbare {w[1]}")
         elif w[0] == "adv":
